@@ -367,27 +367,82 @@ def fails_independent(s):
 
 
 def api_check(strings):
-    """Measurement(unit=s) / x.unit = s accept exactly what parse_unit_string accepts"""
+    """every entry point that takes a unit string — Measurement(unit=s), x.unit = s,
+    MeasurementArray(unit=s), array.unit = s, define_unit(name, s) — accepts exactly what
+    parse_unit_string accepts and gives it the same meaning; a REJECTED request (the exception is
+    caught: a fault) leaves the quantity / the array / the definitions as they were, and a valid
+    assignment afterwards still works"""
+    import warnings
     import qexpy as q
     failures = []
+    dist = collections.Counter()
+
+    def unit_sem(x):
+        # the stored exponent map (the state C12 anchors), not the printed string: the printer
+        # rounds exponents to denominators <= 10 (C13's domain)
+        return ("ok", X.sem({k: X.fr(v) for k, v in x._unit.items()}))
+
+    def attempt(f):
+        try:
+            with warnings.catch_warnings():
+                warnings.simplefilter("ignore")
+                return True, f()
+        except Exception as e:  # noqa: BLE001
+            return False, type(e).__name__
+
     for s, exp, origin in strings:
         if not s:
             continue
-        st, _ = X.impl_parse(s)
-        try:
-            a = q.Measurement(1.0, 0.1, unit=s)
-            b = q.Measurement(1.0, 0.1)
-            b.unit = s
-            ok = a._unit == b._unit
-            acc = True
-        except Exception:  # noqa: BLE001
-            acc, ok = False, True
-        if acc != (st == "ok") or not ok:
-            failures.append({"signature": "c12:api:" + shape(s), "input": s, "oracle": "independent",
-                             "what": "Measurement(unit=s) / x.unit = s do not behave like the parser",
-                             "impl": acc, "expected": st})
+        st, val = X.impl_parse(s)
+        X.reset(q)
+        prev = "Q^3/x"
+        x = q.Measurement(1.0, 0.1, unit=prev)
+        arr = q.MeasurementArray([1.0, 2.0], 0.1, unit=prev)
+        q.define_unit("Zz", "kg*m")
+        before = (unit_sem(x), [unit_sem(e) for e in arr])
+        entries = {
+            "ctor": lambda: unit_sem(q.Measurement(1.0, 0.1, unit=s)),
+            "setter": lambda: (setattr(x, "unit", s), unit_sem(x))[1],
+            "array-ctor": lambda: unit_sem(q.MeasurementArray([1.0, 2.0], 0.1, unit=s)[1]),
+            "array-setter": lambda: (setattr(arr, "unit", s), unit_sem(arr[0]))[1],
+            "define": lambda: (q.define_unit("Zz", s), ("ok", ()))[1],
+        }
+        for name, f in entries.items():
+            acc, res = attempt(f)
+            dist["api:{}:{}".format(name, "accepted" if acc else "rejected")] += 1
+            bad = None
+            if acc != (st == "ok"):
+                bad = "{} {} the string, parse_unit_string {}".format(
+                    name, "accepts" if acc else "rejects ({})".format(res),
+                    "accepts it" if st == "ok" else "rejects it")
+            elif acc and name != "define" and res != ("ok", val):
+                bad = "{} gives the string another meaning than parse_unit_string".format(name)
+            elif not acc:
+                # the fault: nothing may have changed, and the next valid request must work
+                after = (unit_sem(x), [unit_sem(e) for e in arr])
+                z = attempt(lambda: unit_sem(q.Measurement(1.0, 0.1, unit="Zz") /
+                                             q.Measurement(1.0, 0.1, unit="kg")))
+                if after != before:
+                    bad = "a rejected {} changed the unit of the quantity / array: {} -> {}".format(
+                        name, before, after)
+                elif z != (True, X.impl_parse("m")):
+                    bad = "a rejected {} changed the unit definitions (Zz = kg*m reads {})".format(name, z)
+                else:
+                    ok2 = attempt(lambda: (setattr(x, "unit", prev), setattr(arr, "unit", prev))) if \
+                        name in ("setter", "array-setter") else (True, None)
+                    if not ok2[0]:
+                        bad = "after a rejected {} a valid assignment raises {}".format(name, ok2[1])
+            if bad:
+                failures.append({"signature": "c12:api:{}:{}".format(name, shape(s)), "input": s,
+                                 "oracle": "independent", "what": bad, "impl": [acc, str(res)],
+                                 "expected": st, "entry": name})
+            if acc and name in ("setter", "array-setter"):
+                x.unit = prev
+                arr.unit = prev
+            if acc and name == "define":
+                q.define_unit("Zz", "kg*m")
     X.reset(q)
-    return failures
+    return failures, dict(dist)
 
 
 def exhaustive_strings(max_chars, max_toks):
@@ -419,7 +474,9 @@ def run(ctx, strings, ref=False, use_model=True):
 def correspond(ctx):
     strings = gen_strings(ctx.rng, ctx.n(3000, 60000))
     r = run(ctx, strings)
-    r["failures"] += api_check(strings[:ctx.n(400, 5000)])
+    fs, d = api_check(strings[:ctx.n(400, 5000)])
+    r["failures"] += fs
+    r["distribution"].update(d)
     if not ctx.quick:
         seen = {s for s, _, _ in strings}
         ex = [(s, ref_parse(s), "exhaustive") for s in exhaustive_strings(6, 6) if s not in seen]
@@ -461,6 +518,7 @@ def replay(ctx, rp):
         return {"fails": False, "note": "replay file carries no concrete input", "payload": rp}
     exp = ref_parse(s)
     st, val = X.impl_parse(s)
-    return {"fails": fails_independent(s), "input": s,
+    api = api_check([(s, exp, "replay")])[0]
+    return {"fails": fails_independent(s) or bool(api), "input": s, "failures": api,
             "impl": X.show(val) if st == "ok" else "reject:" + val,
             "expected": X.show(exp) if exp is not None else "reject"}
